@@ -1,12 +1,12 @@
 (* C10 theorems instantiated at the bit-exact binary64 instance `fops` (fp_ok fops is C09/FloatFacts.fops_ok, Flocq).
-   Kept outside Properties_C10.v because of the Reals axioms (see C09/FloatFacts.v). *)
+   Used by the `_fops` theorems of Properties_C10.v. *)
 From Coq Require Import List ZArith.
 From V Require Import Base.U32 C09.Model C09.Proofs C09.FloatFacts C10.Model C10.Proofs C10.Calibrated C10.Conv6.
 Local Open Scope Z_scope.
 
-Definition C10_converges_rs_fops := fun k tau d0 p cbs => C10_converges_rs_thm fops k tau d0 p cbs fops_ok.
-Definition C10_bounded_power_counted_fops := C10_bounded_power_counted_thm fops fops_ok.
-Definition C10_bounded_power_fops := C10_bounded_power_thm fops fops_ok.
-Definition C10_bounded_power_calibrated_fops := C10_bounded_power_calibrated_thm fops fops_ok.
-Check C10_converges_rs_fops.
-Print Assumptions C10_converges_rs_fops.
+Definition C10_converges_rs_inst := fun k tau d0 p cbs => C10_converges_rs_thm fops k tau d0 p cbs fops_ok.
+Definition C10_bounded_power_counted_inst := C10_bounded_power_counted_thm fops fops_ok.
+Definition C10_bounded_power_uncalibrated_inst := C10_bounded_power_thm fops fops_ok.
+Definition C10_callback_keeps_accounts_inst := step_cb_only fops fops_ok.
+Definition C10_bounded_power_calibrated_inst := C10_bounded_power_calibrated_thm fops fops_ok.
+Definition C10_calibrated_callback_is_C09_accounting_inst := cal_step_thm fops fops_ok.
